@@ -1,3 +1,4 @@
+import HdModel.Model.TlsInfoDriver
 import HdModel.Model.Util
 import HdModel.Model.DnsDriver
 import HdModel.Model.SniDriver
@@ -31,6 +32,8 @@ def handle (line : String) : String :=
     | "eb" :: rest => Eyeballs.driverLine rest obs
     | "tcpc" :: rest => Eyeballs.tcpcLine rest obs
     | "to" :: rest => Timeout.driverLine rest obs
+    | "toc" :: rest => Timeout.tocLine rest obs
+    | "tlsch" :: rest => TlsInfo.driverLine rest obs
     | "wire" :: rest => Wire.driverLine rest obs
     | "st" :: rest => Streams.driverLine rest obs
     | "pool" :: rest => Pool.driverLine rest obs
